@@ -78,6 +78,7 @@ h_exit_time(size_t idx)
 	double l;
 	if (!nlives) return 1e300;
 	l = lives[idx < nlives ? idx : nlives - 1U];
+	if (hx_procs[idx].stopped > 0) return 1e300;
 	return l < 0 ? 1e300 : hx_procs[idx].t + l;
 }
 
@@ -137,31 +138,37 @@ h_run_until(double t)
 
 static int nconn;
 
-static void
-h_request(uid_t peer, const char *data, size_t len, const size_t *cuts, size_t ncuts)
+/* what sock_conn_cb() does after accept(); returns the client's end or -1 */
+static int
+h_open(uid_t peer)
 {
 	int sv[2];
 	struct echs_conn_s *c;
-	int cid = nconn++;
 
 	if (socketpair(AF_UNIX, SOCK_STREAM, 0, sv) < 0) {
 		hx_log("ERR socketpair\n");
-		return;
+		return -1;
 	}
-	/* what sock_conn_cb() does after accept() */
 	if ((c = make_conn()) == NULL) {
 		hx_log("ERR too many connections\n");
 		close(sv[0]); close(sv[1]);
-		return;
+		return -1;
 	}
 	c->cred = compl_uid(peer);
 	c->cred.u = peer;
 	ev_io_init(&c->r, sock_data_cb, sv[0], EV_READ);
 	ev_io_start(hctx->loop, &c->r);
-	hx_log("REQ %d %u %.6f %zu\n", cid, (unsigned)peer, hx_now, len);
-
 	int fl = fcntl(sv[1], F_GETFL);
 	fcntl(sv[1], F_SETFL, fl | O_NONBLOCK);
+	return sv[1];
+}
+
+static void
+h_converse(int fd, uid_t peer, const char *data, size_t len, const size_t *cuts, size_t ncuts)
+{
+	int cid = nconn++;
+
+	hx_log("REQ %d %u %.6f %zu\n", cid, (unsigned)peer, hx_now, len);
 	size_t off = 0, ci = 0;
 	static char rbuf[1 << 20];
 	size_t rn = 0;
@@ -173,7 +180,7 @@ h_request(uid_t peer, const char *data, size_t len, const size_t *cuts, size_t n
 			if (end > len) end = len;
 		}
 		while (off < end) {
-			ssize_t w = send(sv[1], data + off, end - off, MSG_NOSIGNAL);
+			ssize_t w = send(fd, data + off, end - off, MSG_NOSIGNAL);
 			if (w < 0) {
 				if (errno == EAGAIN) {
 					h_loop_nowait(1);
@@ -186,18 +193,36 @@ h_request(uid_t peer, const char *data, size_t len, const size_t *cuts, size_t n
 		}
 		h_loop_nowait(2);
 		/* keep the reply pipe from filling up */
-		for (ssize_t r; rn < sizeof(rbuf) && (r = recv(sv[1], rbuf + rn, sizeof(rbuf) - rn, 0)) > 0; rn += r);
+		for (ssize_t r; rn < sizeof(rbuf) && (r = recv(fd, rbuf + rn, sizeof(rbuf) - rn, 0)) > 0; rn += r);
 	}
-	shutdown(sv[1], SHUT_WR);
+	shutdown(fd, SHUT_WR);
 	for (int i = 0; i < 8; i++) {
 		h_loop_nowait(1);
-		for (ssize_t r; rn < sizeof(rbuf) && (r = recv(sv[1], rbuf + rn, sizeof(rbuf) - rn, 0)) > 0; rn += r);
+		for (ssize_t r; rn < sizeof(rbuf) && (r = recv(fd, rbuf + rn, sizeof(rbuf) - rn, 0)) > 0; rn += r);
 	}
 	hx_log("RPL %d ", cid);
 	hx_log_esc(rbuf, rn);
 	hx_log("\n");
-	close(sv[1]);
+	close(fd);
 }
+
+static void
+h_request(uid_t peer, const char *data, size_t len, const size_t *cuts, size_t ncuts)
+{
+	int fd = h_open(peer);
+
+	if (fd < 0) {
+		nconn++;
+		return;
+	}
+	h_converse(fd, peer, data, len, cuts, ncuts);
+}
+
+/* connections that are accepted now and say what they want later */
+static struct {
+	int fd;
+	uid_t peer;
+} held[256];
 
 static size_t
 unhex(char *dst, const char *src)
@@ -267,6 +292,25 @@ h_script(char *script)
 				}
 			}
 			h_request(u, data, n, cuts, ncuts);
+		} else if (!strcmp(cmd, "open")) {
+			/* open <peer> <handle> */
+			uid_t u = (uid_t)strtoul(p, &p, 10);
+			unsigned int h = (unsigned int)strtoul(p, &p, 10) % 256U;
+			held[h].peer = u;
+			held[h].fd = h_open(u);
+			h_loop_nowait(1);
+			hx_log("OPEN %u %u %.6f\n", h, (unsigned)u, hx_now);
+		} else if (!strcmp(cmd, "complete")) {
+			/* complete <handle> <hex> */
+			unsigned int h = (unsigned int)strtoul(p, &p, 10) % 256U;
+			while (*p == ' ') p++;
+			size_t n = unhex(data, p);
+			if (held[h].fd > 0) {
+				h_converse(held[h].fd, held[h].peer, data, n, NULL, 0U);
+			} else {
+				nconn++;
+			}
+			held[h].fd = 0;
 		} else if (!strcmp(cmd, "run")) {
 			h_run_until(strtod(p, NULL));
 		} else if (!strcmp(cmd, "late")) {
@@ -280,6 +324,22 @@ h_script(char *script)
 			hx_log("EXIT %zu %d %.6f\n", idx, idx < hx_nprocs ? (int)hx_procs[idx].pid : -1, hx_now);
 			hx_queue_exit(idx, st);
 			if (cmd[4] != 'q') {
+				ev_feed_signal_event(hctx->loop, SIGCHLD);
+				h_loop_nowait(2);
+			}
+		} else if (!strcmp(cmd, "stop") || !strcmp(cmd, "cont")) {
+			/* stop IDX | cont IDX: job control on the IDX-th child (SIGCHLD goes to the daemon as no
+			 * SA_NOCLDSTOP is set); a stopped child's remaining life is kept for when it is continued */
+			size_t idx = strtoul(p, &p, 10);
+			if (idx < hx_nprocs && hx_procs[idx].alive && (*cmd == 's') == !(hx_procs[idx].stopped > 0)) {
+				if (*cmd == 's') {
+					hx_procs[idx].stopped = hx_now;
+				} else {
+					hx_procs[idx].t += hx_now - hx_procs[idx].stopped;
+					hx_procs[idx].stopped = 0;
+				}
+				hx_log("%s %zu %d %.6f\n", *cmd == 's' ? "STOP" : "CONT", idx, (int)hx_procs[idx].pid, hx_now);
+				hx_queue_jobctl(idx, *cmd == 'c');
 				ev_feed_signal_event(hctx->loop, SIGCHLD);
 				h_loop_nowait(2);
 			}
